@@ -9,8 +9,9 @@
      prec, tau0 ~ Gamma(a0, b0 + jitter)   (the 0.001 the code adds to every rate)
      gam[0] ~ Gamma(2, 1 + jitter), gam[l] ~ Gamma(3, 1 + jitter)   (multiplicative gamma process,
                                                                       tau[k] = prod_{l<=k} gam[l])
-   conditionally on the horseshoe scales phi, eta (their hyper-priors are not part of the
-   statements proved).  [ln] is an arbitrary function: the statements hold for every such
+   conditionally on the horseshoe precisions phi, eta ([energy]); their hyper-priors are the
+   second part of this file ([e_hs], [energy_hs] = -2 log of the complete joint).
+   [ln] is an arbitrary function: the statements hold for every such
    function, so a coefficient of [ln x] in a difference is identified exactly.
    Plain (non-python) indexing: sample c >= 0, treatment t >= 0 or control t < 0. *)
 From Coq Require Import ZArith List QArith Qcanon.
@@ -55,6 +56,64 @@ Definition e_hyper (s : st) : Qc :=
 Definition energy (s : st) : Qc :=
   e_lik s + e_W0 s + e_V0 s + e_W s + e_Vk (V2 s) (phi2 s) (eta2 s) + e_Vk (V1 s) (phi1 s) (eta1 s) + e_hyper s.
 End Spec.
+
+(* ---------------------------------------------------------------- horseshoe hyper-priors
+   Documented model ("parameters for horseshoe priors"): every V-coefficient has a horseshoe
+   prior, V ~ N(0, lambda^2 * tau^2) with a local scale lambda ~ C+(0,1) (one per coefficient)
+   and a global scale tau ~ C+(0,1) (one per embedding dimension, one for V0); the sampler's
+   phi and eta are the PRECISIONS  phi = 1/lambda^2, eta = 1/tau^2  (V ~ N(0, 1/(phi eta)),
+   which is how [e_V0]/[e_Vk] above use them).
+   The half-Cauchy law enters through its inverse-gamma mixture (Makalic & Schmidt 2016):
+       lambda ~ C+(0,1)   <=>   lambda^2 | nu ~ InvGamma(1/2, 1/nu),  nu ~ InvGamma(1/2, 1).
+   X ~ InvGamma(a, b) <=> 1/X ~ Gamma(a, rate b); so with the precision p = 1/lambda^2 and the
+   auxiliary RATE a = 1/nu (the quantity the sampler calls phiaux / etaaux - nothing is inverted
+   in the code, both draws are plain gamma draws of p and of a):
+       p | a ~ Gamma(1/2, rate a),      a ~ Gamma(1/2, rate 1).
+   -2 log of a normalised Gamma(shape c, rate r) density at x is
+       -2 (c - 1) ln x + 2 r x - 2 c ln r       (+ 2 ln Gamma(c), a constant)
+   and the term -2 c ln r matters here because the rate of p is itself the random a.
+   Stability term: the sampler adds 0.001 to the rate of every precision draw; as for prec, tau0
+   and gam above it is part of the specified model, as the factor exp(-j p) on every horseshoe
+   precision p (an exponential tilt of the half-Cauchy prior; it does not involve a).  The
+   specification is parameterised by j: j = jitter is the model the sampler is exact for,
+   j = 0 is the plain horseshoe.  Written from this description, not from the update formulas. *)
+Record aux := { a_phi0 : list Qc; a_eta0 : Qc; a_phi2 : list (list Qc); a_eta2 : list Qc;
+                a_phi1 : list (list Qc); a_eta1 : list Qc }.
+Definition set_a_phi0 u x := {| a_phi0 := x; a_eta0 := a_eta0 u; a_phi2 := a_phi2 u; a_eta2 := a_eta2 u; a_phi1 := a_phi1 u; a_eta1 := a_eta1 u |}.
+Definition set_a_eta0 u x := {| a_phi0 := a_phi0 u; a_eta0 := x; a_phi2 := a_phi2 u; a_eta2 := a_eta2 u; a_phi1 := a_phi1 u; a_eta1 := a_eta1 u |}.
+Definition set_a_phi2 u x := {| a_phi0 := a_phi0 u; a_eta0 := a_eta0 u; a_phi2 := x; a_eta2 := a_eta2 u; a_phi1 := a_phi1 u; a_eta1 := a_eta1 u |}.
+Definition set_a_eta2 u x := {| a_phi0 := a_phi0 u; a_eta0 := a_eta0 u; a_phi2 := a_phi2 u; a_eta2 := x; a_phi1 := a_phi1 u; a_eta1 := a_eta1 u |}.
+Definition set_a_phi1 u x := {| a_phi0 := a_phi0 u; a_eta0 := a_eta0 u; a_phi2 := a_phi2 u; a_eta2 := a_eta2 u; a_phi1 := x; a_eta1 := a_eta1 u |}.
+Definition set_a_eta1 u x := {| a_phi0 := a_phi0 u; a_eta0 := a_eta0 u; a_phi2 := a_phi2 u; a_eta2 := a_eta2 u; a_phi1 := a_phi1 u; a_eta1 := x |}.
+
+Section SpecHS.
+Variable ln : Qc -> Qc.
+Variable j : Qc.
+Variable g : cfg.
+
+(* -2 log of the normalised Gamma(shape c, rate r) density at x, up to the constant 2 ln Gamma(c) *)
+Definition e_gamma_n (x c r : Qc) : Qc := e_gamma ln x c r - qofZ 2 * c * ln r.
+(* one half-Cauchy scale: precision p with auxiliary rate a, and the stability tilt *)
+Definition e_hc (p a : Qc) : Qc := e_gamma_n p half a + e_gamma_n a half 1 + qofZ 2 * j * p.
+Definition e_hs_vec (n : nat) (p a : list Qc) : Qc := sumn n (fun i => e_hc (vnth p i) (vnth a i)).
+Definition e_hs_mat (p a : list (list Qc)) : Qc :=
+  sumn (c_ndd g) (fun m => e_hs_vec (c_D g) (rnth p m) (rnth a m)).
+Definition e_hs (s : st) (u : aux) : Qc :=
+  e_hs_vec (c_ndd g) (phi0 s) (a_phi0 u) + e_hc (eta0 s) (a_eta0 u)
+  + e_hs_mat (phi2 s) (a_phi2 u) + e_hs_vec (c_D g) (eta2 s) (a_eta2 u)
+  + e_hs_mat (phi1 s) (a_phi1 u) + e_hs_vec (c_D g) (eta1 s) (a_eta1 u).
+(* -2 log of the complete joint density: all parameters, horseshoe precisions and auxiliaries *)
+Definition energy_hs (d : data) (s : st) (u : aux) : Qc := energy ln g d s + e_hs s u.
+
+(* what "x is drawn from Gamma(shape c, rate r)" means for an energy E as a function of x:
+   E(t) - E(t') = gform c r t t', i.e. c - 1 and r are the coefficients of -2 ln x and 2 x *)
+Definition gform (c r t t' : Qc) : Qc := - (qofZ 2 * (c - 1) * (ln t - ln t')) + qofZ 2 * r * (t - t').
+(* the sum of all horseshoe precisions (what the stability tilt multiplies) *)
+Definition hs_total (s : st) : Qc :=
+  sumn (c_ndd g) (fun m => vnth (phi0 s) m) + eta0 s
+  + sumn (c_ndd g) (fun m => sumn (c_D g) (fun k => vnth (rnth (phi2 s) m) k)) + sumn (c_D g) (fun k => vnth (eta2 s) k)
+  + sumn (c_ndd g) (fun m => sumn (c_D g) (fun k => vnth (rnth (phi1 s) m) k)) + sumn (c_D g) (fun k => vnth (eta1 s) k).
+End SpecHS.
 
 (* hypotheses of the theorems *)
 Definition ValidData (d : data) : Prop :=
